@@ -114,6 +114,9 @@ func plWrap(sc *plScenario, chk plCheck) *sched.Scenario {
 		if strings.Contains(chk.props, "4") {
 			a.checkC04(chk.synthetic)
 		}
+		if strings.Contains(chk.props, "D") {
+			a.checkDuplicates()
+		}
 		out := sched.Outcome{Summary: plSummary(r), Violations: a.viol}
 		if os.Getenv("VERIF_REPLAY") != "" {
 			fmt.Println(plDescribe(r))
@@ -739,4 +742,103 @@ func TestVerifC04Drop(t *testing.T) {
 	e.Bound = bound
 	plReport(res, e, "C04")
 	res.Bounds["scenarios"] = len(scs)
+}
+
+// ------------------------------------------------------------------------------------------------
+// C13 (duplicate notifications at the real channel manager)
+
+// checkDuplicates: being notified twice about the same collection / partition has no further effect: every source
+// vchannel is subscribed once, no notification ends in an error (an error pauses the task), and (through the C01 / C04
+// oracles run with it) nothing is emitted twice and a drop is requested once.
+func (a *plAnalysis) checkDuplicates() {
+	r := a.r
+	n := map[string]int{}
+	for _, reg := range r.mq.Registers {
+		n[reg.VChannel]++
+	}
+	for v, c := range n {
+		if c > 1 {
+			a.v("C13/dup/subscribed-twice", "source vchannel %s was subscribed %d times although its collection was announced more than once for the same incarnation", v, c)
+		}
+	}
+	for _, v := range r.mq.DupRegisters {
+		a.v("C13/dup/subscribed-twice", "a second subscription of source vchannel %s was attempted while the first was live: its collection was started twice", v)
+	}
+	for name, err := range r.driverErr {
+		if err != nil && (strings.HasPrefix(name, "start:") || strings.HasPrefix(name, "addpart:")) {
+			a.v("C13/dup/notification-failed/"+strings.SplitN(name, ":", 2)[0], "notification %s ended in an error (the reader reports it and the task is paused): %v", name, err)
+		}
+	}
+	for name, done := range r.driverDone {
+		_ = done
+		_ = name
+	}
+	for i, d := range r.sc.Drivers {
+		name := fmt.Sprintf("%s:%s%s#%d", d.Kind, r.sc.Colls[d.Coll].Name, d.Part, i)
+		if !r.driverDone[name] {
+			a.v("C13/dup/notification-stuck/"+d.Kind, "notification %s never returned", name)
+		}
+	}
+}
+
+func plDuplicateScenarios(thorough bool) []*plScenario {
+	var out []*plScenario
+	for _, shards := range []int{1, 2} {
+		shards := shards
+		// the same collection announced twice (start-up listing and live watch), the two calls interleaving at the
+		// downstream lookups; data, then a drop
+		sc := plShardedScenario(fmt.Sprintf("dup:collection/%d-shards", shards), shards, func(i int) []plPack {
+			return []plPack{pkIns(int64(1000 + i)), pkDropColl(1050)}
+		})
+		sc.Drivers = append(sc.Drivers, plDriver{Kind: "start", Coll: 0})
+		sc.ParkTargetInStart = true
+		if shards == 2 {
+			sc.HeavyBound = 1
+		}
+		out = append(out, sc)
+	}
+	{
+		// announced twice, data only
+		sc := plShardedScenario("dup:collection/data", 1, func(i int) []plPack { return []plPack{pkIns(1000), pkDel(1010)} })
+		sc.Drivers = append(sc.Drivers, plDriver{Kind: "start", Coll: 0})
+		sc.ParkTargetInStart = true
+		out = append(out, sc)
+	}
+	{
+		// a collection the downstream does not have yet: both notifications may send the create event
+		sc := plShardedScenario("dup:collection/created-by-event", 1, func(i int) []plPack { return []plPack{pkIns(1000)} })
+		sc.Colls[0].TgtMissing = true
+		sc.Drivers = append(sc.Drivers, plDriver{Kind: "start", Coll: 0})
+		sc.ParkTargetInStart = true
+		out = append(out, sc)
+	}
+	{
+		// partition announced twice (as in the C04 family), judged for subscriptions and errors as well
+		sc := plShardedScenario("dup:partition", 2, func(i int) []plPack { return []plPack{pkDropPart(1050)} })
+		withPartition(sc.Colls[0], true)
+		sc.Drivers = append(sc.Drivers, plDriver{Kind: "addpart", Coll: 0, Part: "p1", PartState: pb.PartitionState_PartitionCreated},
+			plDriver{Kind: "addpart", Coll: 0, Part: "p1", PartState: pb.PartitionState_PartitionCreated})
+		sc.PointInAddPartition = true
+		sc.HeavyBound = 1
+		out = append(out, sc)
+	}
+	if thorough {
+		sc := plShardedScenario("dup:collection/3-times", 1, func(i int) []plPack { return []plPack{pkIns(1000), pkDropColl(1050)} })
+		sc.Drivers = append(sc.Drivers, plDriver{Kind: "start", Coll: 0}, plDriver{Kind: "start", Coll: 0})
+		sc.ParkTargetInStart = true
+		sc.HeavyBound = 2
+		out = append(out, sc)
+	}
+	return out
+}
+
+func TestVerifC13Duplicates(t *testing.T) {
+	res := ev.New("C13", "duplicates")
+	defer res.Write()
+	bound := 2
+	if ev.Thorough() {
+		bound = 3
+	}
+	res.Rule = "sched engine over the real replicateChannelManager fed by fakemq: the same collection (1 or 2 shards, present downstream or created through the event) and the same partition announced two (thorough: three) times by concurrent StartReadCollection / AddPartition calls; scheduling points: the calls themselves, every downstream lookup inside StartReadCollection (the check-then-act window of the duplicate handling), the dropped-collection probes inside AddPartition, stream delivery, pack.computed, barrier.signal; all schedules within the deviation bound; oracle: every source vchannel subscribed once, no notification returns an error or hangs, nothing emitted twice / missing (C01 oracle), exactly one drop request (C04 oracle)"
+	plExplore(t, res, "C13", bound, plDuplicateScenarios(ev.Thorough()), plCheck{props: "14D"}, 150*time.Second)
 }
